@@ -139,6 +139,14 @@ func (sa *Safe) step(fr *frame, st *State, ins ssa.Instruction) {
 			length = b.Len
 		}
 		sa.needIndex(fr, st, idx.Lin, length, exprText(x), x.Pos())
+		if _, isPtr := x.Type().Underlying().(*types.Pointer); isPtr && b.Kind == avUnknown && b.Fields != nil {
+			if _, ok := b.Fields["*nonnil"]; ok {
+				v := sa.freshM(fr, st, x.Type(), exprText(x), nilMaybe)
+				v.NonNil = true
+				fr.regs[x] = v
+				return
+			}
+		}
 		if stt, isStruct := x.Type().Underlying().(*types.Struct); isStruct && b.Kind == avUnknown && b.Fields != nil {
 			v := AVal{Kind: avStruct, Fields: map[string]AVal{}, Type: x.Type()}
 			for i := 0; i < stt.NumFields(); i++ {
@@ -355,6 +363,24 @@ func (sa *Safe) unop(fr *frame, st *State, x *ssa.UnOp) {
 			// the value of a small, fully tracked array of structs (a local table): a snapshot of the
 			// ranges of its integer fields, so that an element read from the copy at an unknown index
 			// is known to lie in the range of that field over all elements
+			if _, isPtr := arr.Elem().Underlying().(*types.Pointer); isPtr && arr.Len() <= 64 {
+				// an array of addresses copied by a range loop: every element non-nil -> the element read is
+				allNonNil := arr.Len() > 0
+				for k := int64(0); k < arr.Len(); k++ {
+					c, has := st.mem[v.Obj][fmt.Sprintf("%s[%d]", v.Path, k)]
+					if !has || sa.nilOfVal(st, c) != nilNo {
+						allNonNil = false
+					}
+				}
+				if allNonNil {
+					lv.Fields = map[string]AVal{"*nonnil": {Kind: avBool}}
+					for k := int64(0); k < arr.Len(); k++ {
+						if c := st.mem[v.Obj][fmt.Sprintf("%s[%d]", v.Path, k)]; c.Obj != nil {
+							sa.havoc(st, c.Obj, c.Path) // it may be stored through
+						}
+					}
+				}
+			}
 			if es, isStruct := arr.Elem().Underlying().(*types.Struct); isStruct && arr.Len() <= 64 {
 				snap := map[string]AVal{}
 				for fi := 0; fi < es.NumFields(); fi++ {
